@@ -82,3 +82,8 @@ package memdb
 //@   props C14
 //@   safety off
 //@   ensures [C14:size-is-the-byte-count] result == p.kvSize
+
+// (left abstract for the callers that only hand it a range: C02 range slicing)
+//@ func (*DB).NewIterator
+//@   props C02 C11
+//@   trusted
